@@ -173,7 +173,7 @@ func runC09(env *Env, s Scenario) {
 		if open.Class != "netconf" {
 			env.Fail("wrong-error-class", "", "Open failed with %v (class %q), want a NETCONF error", open.Err, open.Class)
 		}
-		if nr.Tr.CloseCalls == 0 {
+		if nr.Tr.CloseCount() == 0 {
 			env.Fail("transport-left-open", "", "Open failed but the transport was not closed")
 		}
 		env.Probe("open-refused")
